@@ -437,6 +437,24 @@ func (m *monC08) AfterBlock(c *Chain, req *abci.RequestFinalizeBlock, res *abci.
 		if !m.preEnd.Meter.Equal(meter) {
 			w.Violation("C09", "meter-delta-differs-from-jailed-power", map[string]any{"height": req.Height, "meter_begin": b.Meter.String(), "expected_after": meter.String(), "observed_after": m.preEnd.Meter.String()})
 		}
+		// a slash also burns the stake the punished validator's delegators redelegated away after the infraction: the
+		// destinations of such redelegations may lose tokens (nothing else about them may change)
+		redelDst := map[string]bool{}
+		for pc := range expectJail {
+			if src, ok := b.Vals[pc]; ok {
+				if sa, err := sdk.ValAddressFromBech32(src.Oper); err == nil {
+					if reds, err := w.P.PApp.StakingKeeper.GetRedelegationsFromSrcValidator(ctx, sa); err == nil {
+						for _, r := range reds {
+							for _, st := range b.Vals {
+								if st.Oper == r.ValidatorDstAddress {
+									redelDst[st.Cons] = true
+								}
+							}
+						}
+					}
+				}
+			}
+		}
 		// punishments: exactly the expected validators, with the consumer's parameters
 		for pc, after := range m.preEnd.Vals {
 			before, had := b.Vals[pc]
@@ -455,7 +473,12 @@ func (m *monC08) AfterBlock(c *Chain, req *abci.RequestFinalizeBlock, res *abci.
 			if !had || userOps {
 				continue
 			}
-			if after.Jailed != before.Jailed || after.Tombstoned != before.Tombstoned || !after.JailedUntil.Equal(before.JailedUntil) || !after.Tokens.Equal(before.Tokens) {
+			tokensOK := after.Tokens.Equal(before.Tokens)
+			if !tokensOK && redelDst[pc] && after.Tokens.LT(before.Tokens) {
+				tokensOK = true
+				w.Event("C08", "redelegation-destinations-of-a-jailed-validator-lost-tokens")
+			}
+			if after.Jailed != before.Jailed || after.Tombstoned != before.Tombstoned || !after.JailedUntil.Equal(before.JailedUntil) || !tokensOK {
 				w.Violation("C08", "other-validator-affected", map[string]any{"val": w.valNameHex(pc), "jailed": []bool{before.Jailed, after.Jailed}, "tokens": []string{before.Tokens.String(), after.Tokens.String()}})
 			}
 		}
